@@ -32,7 +32,8 @@ def programs(check, n):
             steps, outs = tagged_program(rng)
             shape = "tagged"
         else:
-            shape = rng.choice([s for s in gen.SHAPES])
+            # every fifth program has expressions with several references into one node (order-sensitive dependency building)
+            shape = "multiref" if i % 5 == 1 else rng.choice([s for s in gen.SHAPES])
             steps, outs = gen.SHAPES[shape](rng)
             if rng.random() < 0.3:
                 gen.add_error_outputs(rng, steps, outs, {})
